@@ -139,8 +139,20 @@ def build_harness():
     want = re.sub(r"replace github.com/jotaen/klog => .*", "replace github.com/jotaen/klog => " + REPO, gomod)
     if want != gomod:
         open(os.path.join(h, "go.mod"), "w").write(want)
-    r = run(["go", "build", "-tags", "verif", "-o", os.path.join(BUILD, "harness"), "."], cwd=h, env=GOENV)
+    cover = ["-cover", "-coverpkg=./...,github.com/jotaen/klog/klog/..."] if os.environ.get("VERIF_COVER") else []
+    r = run(["go", "build", "-tags", "verif"] + cover + ["-o", os.path.join(BUILD, "harness"), "."], cwd=h, env=GOENV)
     return r.returncode == 0, r.stdout
+
+
+def go_coverage(covdir):
+    """statement coverage of klog's packages reached by this run's harness processes (thorough tier only)"""
+    r = run(["go", "tool", "covdata", "percent", "-i=" + covdir], env=GOENV)
+    out = {}
+    for line in r.stdout.split("\n"):
+        m = re.match(r"\s*(github.com/jotaen/klog\S*)\s+coverage:\s+([0-9.]+)%", line)
+        if m:
+            out[m.group(1)] = float(m.group(2))
+    return out
 
 
 def setup():
@@ -294,6 +306,13 @@ class Suite:
 
 def run_check(pid, tier, seed):
     t0 = time.time()
+    covdir = None
+    if tier == "thorough":
+        os.environ["VERIF_COVER"] = "1"
+        covdir = os.path.join(BUILD, "cover-" + pid)
+        shutil.rmtree(covdir, ignore_errors=True)
+        os.makedirs(covdir, exist_ok=True)
+        os.environ["GOCOVERDIR"] = covdir
     mod = importlib.import_module("props." + pid.lower())
     violations, known_lines = [], []
     known = load_known()
@@ -386,8 +405,15 @@ def run_check(pid, tier, seed):
         violations.append((p, " no-failing-input-found"))
     for p, suffix in violations:
         print("VIOLATION property=%s replay=%s%s" % (pid, os.path.relpath(p, ROOT) if OUT == ROOT else p, suffix))
+    cov = go_coverage(covdir) if covdir else None
     write_evidence(pid, tier, seed, thm, suites_ev, len(violations), t0,
-                   known=[k["id"] for k, _ in known_lines], forb=forb)
+                   known=[k["id"] for k, _ in known_lines], forb=forb, cov=cov)
+    if covdir:
+        shutil.rmtree(covdir, ignore_errors=True)
+        # leave a plain (uninstrumented) harness behind for the next quick run
+        os.environ.pop("VERIF_COVER", None); os.environ.pop("GOCOVERDIR", None)
+        with Lock():
+            build_harness()
     return 1 if violations else 0
 
 
@@ -423,7 +449,7 @@ def load_corpus(pid):
     return out
 
 
-def write_evidence(pid, tier, seed, thm, suites_ev, nviol, t0, known=(), forb=(), note=""):
+def write_evidence(pid, tier, seed, thm, suites_ev, nviol, t0, known=(), forb=(), note="", cov=None):
     os.makedirs(os.path.join(OUT, "evidence"), exist_ok=True)
     nthm = len(thm["theorems"])
     obligations = nthm + len(suites_ev)
@@ -453,6 +479,7 @@ def write_evidence(pid, tier, seed, thm, suites_ev, nviol, t0, known=(), forb=()
             "exhaustive": bool(suites_ev) and all(s["exhaustive"] for s in suites_ev),
             "suites": suites_ev, "samples": samples or [note or "none"],
             "known_findings_seen": sorted(set(known)),
+            "go_statement_coverage_percent": cov if cov is not None else "measured in the thorough tier only",
         },
         "assumptions": ["the Go toolchain and standard library behave as modelled (see DESIGN.md §6)",
                         "differential runs support, and never replace, the theorems"],
